@@ -7,22 +7,27 @@ NOTE_COMMON = ("Trusted: Coq kernel + vm_compute; the hand-written model (tied t
 
 TEXTS = {
     "C01": {
-        "text": "Theorems (Properties/C01.v): any observation of an ontology that passes the executable statement closure_ok reports, "
-                "for every term, exactly clos_trans of the reported parent relation, never the term itself, children as the exact "
-                "inverse of parents, child_of/parent_of as membership (proved for all observations, no bound). The check evaluates "
-                "closure_ok inside Coq on the real crate's observation of every generated ontology and diffs the Gallina transcription "
-                "of connect_all_terms/create_cache_of_grandparents/all_grandparents against the crate.",
-        "design_ref": "DESIGN.md §4 C01",
-        "note": NOTE_COMMON + "Acyclic inputs only (the property's quantifier).",
+        "text": "Theorems about the Gallina transcription of builder.rs (Properties/C01.v, unbounded): whenever connect_all_terms / "
+                "create_cache_of_grandparents / all_grandparents return — EVERY fuel, insertion order, id assignment and DAG shape — names, "
+                "parents, children and flags are untouched and every term's ancestor cache is exactly clos_trans of the direct-parent "
+                "relation (invariant: every cache is empty or exact; the parents_cached heuristic is sound because a term with parents has a "
+                "non-empty closure); never the term itself on any ranked (acyclic) graph; Arena::insert and every successful add_parent keep "
+                "ids unique, links resolving and children the exact inverse of parents, add_parent adds exactly one link. Plus soundness of the "
+                "executable statement closure_ok, which the check evaluates inside Coq on the real crate's observation of every generated "
+                "ontology (Builder, binary v1-v3, hp.obo, sub_ontology paths); the transcription is diffed against the crate.",
+        "design_ref": "DESIGN.md §4 C01, §9",
+        "note": NOTE_COMMON + "Acyclic inputs only (the property's quantifier). Totality of the fuelled recursion on DAGs is not a theorem (a fuel exhaustion would show as a disagreement).",
         "technique": TECH,
     },
     "C02": {
-        "text": "Theorems (Properties/C02.v): an observation that passes kind_ok links a term to an annotation id iff a record of that kind "
-                "has a direct term equal to the term or below it; record ids unique, direct lists duplicate-free and resolving; linked ids "
-                "resolve in the same kind. The check evaluates this on the real crate's observation for the three kinds separately, compares "
-                "the records with the facts the Builder script supplied, probes the three id maps for kind leakage, and diffs the Gallina "
-                "transcription of link_*_term/annotate_* (recursive early-exit propagation) against the crate.",
-        "design_ref": "DESIGN.md §4 C02", "note": NOTE_COMMON + "Acyclic inputs only.", "technique": TECH,
+        "text": "Theorems about the Gallina transcription of link_*_term (Properties/C02.v, unbounded): one propagation with the early exit "
+                "'already linked => stop' changes nothing but the annotation sets of its kind and adds the annotation to exactly the target "
+                "and its cached ancestors — proved for every fuel from two facts only: the ancestor cache is transitive and irreflexive (C01) "
+                "and earlier propagations ran to completion (call-stack invariant upclosed_except); any sequence of propagations (any order, "
+                "repetitions) leaves a term with an annotation iff it had it before or a direct fact sits at the term or below it. Plus "
+                "soundness of the executable statement kind_ok / recs_ok, evaluated on the real crate's observation for the three kinds "
+                "separately (records vs supplied facts, id-map probes for kind leakage); the transcription is diffed against the crate.",
+        "design_ref": "DESIGN.md §4 C02, §9", "note": NOTE_COMMON + "Acyclic inputs only.", "technique": TECH,
     },
     "C03": {
         "text": "Theorems (Properties/C03.v): the documented formula over the reals is >= 0 for n <= N, antitone in n, 0 for n=0 or N=0 or n=N; "
@@ -41,9 +46,12 @@ TEXTS = {
         "design_ref": "DESIGN.md §4 C15", "note": NOTE_COMMON, "technique": TECH,
     },
     "C16": {
-        "text": "Theorem (Properties/C16.v): observations accepted by spec_C16 are pairwise identical. The check builds every fact set in three "
-                "independent random orders with the real Builder and with the model and demands identical canonical dumps.",
-        "design_ref": "DESIGN.md §4 C16", "note": NOTE_COMMON, "technique": TECH,
+        "text": "Theorems (Properties/C16.v): about the transcription — ancestor sets depend only on the parent RELATION (two arenas with the "
+                "same links, whatever the supply order and fuel, get the same ancestor sets), inherited annotations depend on the fact list "
+                "through membership only; and observations accepted by spec_C16 are pairwise identical. The check builds every fact set in "
+                "three independent random orders (incl. leaf-first / root-first supplies of 36-90-term chains) with the real Builder and with "
+                "the model and demands identical canonical dumps.",
+        "design_ref": "DESIGN.md §4 C16, §9", "note": NOTE_COMMON, "technique": TECH,
     },
     "C19": {
         "text": "Theorems (Properties/C19.v, about the Gallina transcription): default modifier = children(HP:1) minus HP:118, default "
